@@ -94,6 +94,18 @@ Theorem sdv_value_eq_value : forall (A : Type) v (p : list A),
   WF v -> zlen p = seq_len v -> offset v = 0 -> sdv_value v p = value v p.
 Proof. exact (@sdv_value_lemma). Qed.
 
+(** the byte and index-array realisations of a SeqDataView (the same two
+    slices executed on an element-wise image [map f p] of the parent string)
+    are the element-wise images of what the kernel view displays *)
+Theorem sdv_routes_agree : forall (A B : Type) (f : A -> B) v (p : list A),
+  WF v -> zlen p = seq_len v -> offset v = 0 ->
+  sdv_value v (map f p) = map f (value v p).
+Proof. exact (@sdv_routes_agree_lemma). Qed.
+
+Theorem value_natural : forall (A B : Type) (f : A -> B) v (p : list A),
+  value v (map f p) = map f (value v p).
+Proof. exact (@value_map). Qed.
+
 (** rich-dict re-basing ([copy(sliced=True)] / [to_rich_dict]): the view over
     the truncated parent displays the same string and keeps length and
     orientation; its own segment starts at 0 *)
